@@ -25,6 +25,7 @@ STRATA = [
     ("unbounded", 100, 2000),
     ("deep-tree", 150, 3000),
     ("int-ties", 8000, 60000),
+    ("wide-coef", 3000, 30000),
     ("inplace-seq", 250, 3000),
     ("many-nodes", 1, 8),
 ]
@@ -167,6 +168,24 @@ def gen(stratum, rng, tier):
             b.append(U)
         cfg = rng.choice([{}, {}, {}, {"heuristics": False}, {"gap_tol": 1e-9}])
         return {"kind": "bin", "box": U, "c": [rng.choice([1, 1, 2, -1, -1, -2, 3, 0]) for _ in range(n)], "A": A, "b": b,
+                "ints": list(range(n)), "minimize": rng.random() < 0.5, "rounds": 1, "cfg": cfg}
+    if stratum == "wide-coef":
+        # integer data whose magnitudes are spread over two or three decades (a row like -100x + y <= 0 next to
+        # -x - 100y <= -1): ratios in the simplex ratio test then differ by ~1e-6, which a pivot tolerance as coarse as
+        # the integrality tolerance takes for ties
+        n = rng.randint(2, 3)
+        U = rng.randint(3, 6)
+        M = rng.choice([100, 100, 200, 1000])
+        pool = [M, -M, 1, -1, 1, -1, 0, M + 1]
+        A = [[rng.choice(pool) for _ in range(n)] for _ in range(rng.randint(2, 3))]
+        b = [rng.choice([0, -1, 1, -2, 2, -M, M // 2]) for _ in A]
+        for j in range(n):
+            r = [0] * n
+            r[j] = 1
+            A.append(r)
+            b.append(U)
+        cfg = rng.choice([{}, {}, {"heuristics": False}])
+        return {"kind": "bin", "box": U, "c": [rng.choice([M, -M, 1, -1, 0]) for _ in range(n)], "A": A, "b": b,
                 "ints": list(range(n)), "minimize": rng.random() < 0.5, "rounds": 1, "cfg": cfg}
     if stratum == "inplace-seq":
         # k-best enumeration the way callers write it: ONE constraint matrix, a no-good cut appended in place after each
